@@ -795,3 +795,35 @@ VARIANTS += [
       edits=[(V, _NW_BODY, "\tforwarded := opts\n\tforwarded.OCITrustPolicy, forwarded.PluginManager = ociTrustPolicy, pluginManager\n\treturn NewVerifierWithOptions(trustStore, forwarded)\n")],
       why='a whole copy of the parameter with two other fields overridden by positional parameters'),
 ]
+
+# class O, clause 3: the default yields to what the caller supplied (constructor/default-yields/<fn>)
+_SR_TAIL = ("\trevocationCodeSigningValidator := verifierOptions.RevocationCodeSigningValidator\n\tif revocationCodeSigningValidator != nil {\n\t\tv.revocationCodeSigningValidator = revocationCodeSigningValidator\n\t\treturn nil\n\t}\n" +
+            "\trevocationClient := verifierOptions.RevocationClient\n\tif revocationClient != nil {\n\t\tv.revocationClient = revocationClient\n\t\treturn nil\n\t}\n\n" +
+            "\t// both RevocationCodeSigningValidator and RevocationClient are nil\n\trevocationCodeSigningValidator, err = revocation.NewWithOptions(revocation.Options{\n\t\tOCSPHTTPClient:   &http.Client{Timeout: 2 * time.Second},\n" +
+            "\t\tCertChainPurpose: purpose.CodeSigning,\n\t})\n\tif err != nil {\n\t\treturn err\n\t}\n\tv.revocationCodeSigningValidator = revocationCodeSigningValidator\n\treturn nil\n}\n")
+_DEF = "revocation.NewWithOptions(revocation.Options{\n\t\tOCSPHTTPClient:   &http.Client{Timeout: 2 * time.Second},\n\t\tCertChainPurpose: purpose.CodeSigning,\n\t})"
+VARIANTS += [
+ dict(name='setter-falls-through-after-caller-validator', expect='flagged(constructor/default-yields)',
+      find="\tif revocationCodeSigningValidator != nil {\n\t\tv.revocationCodeSigningValidator = revocationCodeSigningValidator\n\t\treturn nil\n\t}\n",
+      replace="\tif revocationCodeSigningValidator != nil {\n\t\tv.revocationCodeSigningValidator = revocationCodeSigningValidator\n\t}\n", file=V),
+ dict(name='setter-falls-through-after-caller-client', expect='flagged(constructor/default-yields)',
+      find="\tif revocationClient != nil {\n\t\tv.revocationClient = revocationClient\n\t\treturn nil\n\t}\n",
+      replace="\tif revocationClient != nil {\n\t\tv.revocationClient = revocationClient\n\t}\n", file=V),
+ dict(name='setter-switch-default-arm-merged-with-client-arm', expect='flagged(constructor/default-yields)',
+      edits=[(V, _SR_TAIL, "\tswitch {\n\tcase verifierOptions.RevocationCodeSigningValidator != nil:\n\t\tv.revocationCodeSigningValidator = verifierOptions.RevocationCodeSigningValidator\n\t\treturn nil\n" +
+              "\tcase verifierOptions.RevocationClient != nil:\n\t\tv.revocationClient = verifierOptions.RevocationClient\n\t\tfallthrough\n\tdefault:\n\t\tbuiltin, err := " + _DEF.replace('\n\t', '\n\t\t') + "\n\t\tif err != nil {\n\t\t\treturn err\n\t\t}\n" +
+              "\t\tv.revocationCodeSigningValidator = builtin\n\t}\n\treturn nil\n}\n")]),
+ dict(name='benign-setter-switch', expect='silent',
+      edits=[(V, _SR_TAIL, "\tswitch {\n\tcase verifierOptions.RevocationCodeSigningValidator != nil:\n\t\tv.revocationCodeSigningValidator = verifierOptions.RevocationCodeSigningValidator\n" +
+              "\tcase verifierOptions.RevocationClient != nil:\n\t\tv.revocationClient = verifierOptions.RevocationClient\n\tdefault:\n\t\tbuiltin, err := " + _DEF.replace('\n\t', '\n\t\t') + "\n\t\tif err != nil {\n\t\t\treturn err\n\t\t}\n" +
+              "\t\tv.revocationCodeSigningValidator = builtin\n\t}\n\treturn nil\n}\n")],
+      why='the default arm is reached only through the nil edges of both tests'),
+ dict(name='benign-setter-default-from-helper', expect='silent',
+      edits=[(V, _SR_TAIL, _SR_TAIL.replace("revocationCodeSigningValidator, err = " + _DEF, "revocationCodeSigningValidator, err = builtinCodeSigningValidator()") +
+              "\nfunc builtinCodeSigningValidator() (revocation.Validator, error) {\n\treturn " + _DEF + "\n}\n")],
+      why='the helper result is a default; it is stored where both options were found nil'),
+ dict(name='setter-helper-method-also-called-unguarded', expect='flagged(constructor/default-yields)',
+      edits=[(V, _SR_TAIL, "\tif verifierOptions.RevocationCodeSigningValidator != nil {\n\t\tv.revocationCodeSigningValidator = verifierOptions.RevocationCodeSigningValidator\n\t\treturn nil\n\t}\n" +
+              "\tif verifierOptions.RevocationClient != nil {\n\t\tv.revocationClient = verifierOptions.RevocationClient\n\t}\n\treturn v.useBuiltinCodeSigningValidator()\n}\n\n" +
+              "func (v *verifier) useBuiltinCodeSigningValidator() error {\n\tbuiltin, err := " + _DEF + "\n\tif err != nil {\n\t\treturn err\n\t}\n\tv.revocationCodeSigningValidator = builtin\n\treturn nil\n}\n")]),
+]
